@@ -69,6 +69,8 @@ def b_len(I, a, k, node):
         return len(cv)
     if isinstance(v, AList) and not v.unknown:
         return len(v.items)
+    if type(v).__name__ == 'ASet':
+        return len(v.items)
     if isinstance(v, ADict) and not v.open:
         return len(v.items)
     if isinstance(v, Unk) and getattr(v, 'one_of', None):
@@ -525,15 +527,71 @@ def b_dir(I, a, k, node):
 
 
 def b_set(I, a, k, node):
+    from sa.values import ASet
+    mutable = isinstance(getattr(node, 'func', None), ast.Name) and node.func.id == 'set'
     if not a:
-        return frozenset()
+        return ASet() if mutable else frozenset()
     seq = M.iterate(I, a[0], node)
     if all(is_concrete(x) for x in seq) and not (isinstance(a[0], AList) and a[0].unknown):
         try:
-            return frozenset(concrete(x) for x in seq)
+            fs = frozenset(concrete(x) for x in seq)
+            return ASet([concrete(x) for x in seq]) if mutable else fs
         except TypeError:
             pass
     return Unk('set', kinds=['set'], taint=tj(*seq))
+
+
+def m_aset(I, recv, a, k, node, kind):
+    """Methods of a set the analysed code created itself."""
+    from sa.values import ASet
+    name = _mname(I, node)
+
+    def elems(v):
+        if isinstance(v, ASet):
+            return list(v.items)
+        seq = M.iterate(I, v, node)
+        if not all(is_concrete(x) for x in seq):
+            raise AnalysisError('set operation with unknown elements at %s' % norm(node)[:60])
+        return [concrete(x) for x in seq]
+    if name == 'add':
+        if not is_concrete(a[0]):
+            raise AnalysisError('set.add of an unknown element at %s' % norm(node)[:60])
+        if concrete(a[0]) not in recv.items:
+            recv.items.append(concrete(a[0]))
+        return None
+    if name == 'update':
+        for v in a:
+            for x in elems(v):
+                if x not in recv.items:
+                    recv.items.append(x)
+        return None
+    if name in ('discard', 'remove'):
+        x = concrete(a[0])
+        if x in recv.items:
+            recv.items.remove(x)
+        elif name == 'remove':
+            _raise(I, node, 'KeyError', 'set.remove of a missing element')
+        return None
+    if name == 'clear':
+        del recv.items[:]
+        return None
+    if name == 'copy':
+        return ASet(recv.items)
+    if name in ('union', 'intersection', 'difference'):
+        cur = list(recv.items)
+        for v in a:
+            o = elems(v)
+            if name == 'union':
+                cur += [x for x in o if x not in cur]
+            elif name == 'intersection':
+                cur = [x for x in cur if x in o]
+            else:
+                cur = [x for x in cur if x not in o]
+        return ASet(cur)
+    if name in ('issubset', 'issuperset', 'isdisjoint'):
+        o = set(elems(a[0]))
+        return getattr(set(recv.items), name)(o)
+    raise AnalysisError('set method %s not modelled at %s' % (name, norm(node)[:60]))
 
 
 def b_noop(I, a, k, node):
@@ -1323,5 +1381,5 @@ METHODS = {
     'read': m_read, 'write': m_write, 'seek': m_seek, 'getvalue': m_getvalue, 'close': m_close,
     'readline': m_streamother, 'readlines': m_streamother, 'tell': m_streamother, 'flush': m_streamother,
     'truncate': m_streamother, 'peek': m_streamother, 'read1': m_streamother, 'readinto': m_streamother,
-    'writelines': m_streamother, 'mutate': m_set_mutate,
+    'writelines': m_streamother, 'mutate': m_set_mutate, 'aset': m_aset,
 }
